@@ -163,4 +163,18 @@ theorem liveEntries_last_end (s : Nat) (a : List LBlock) (l : Entry)
       have := ih (s + x.payload.length) (by simpa [liveEntries] using h)
       rw [this]; simp [dataOf, List.flatMap_cons]; omega
 
+theorem liveEntries_range (s : Nat) (bs : List LBlock) :
+    ∀ e ∈ liveEntries s bs, (s : Int) ≤ e.off ∧ 0 ≤ e.size ∧ e.off + e.size ≤ ((s + (dataOf bs).length : Nat) : Int) := by
+  induction bs generalizing s with
+  | nil => simp [liveEntries]
+  | cons b bs ih =>
+    intro e he
+    have hlen : (dataOf (b :: bs)).length = b.payload.length + (dataOf bs).length := by
+      simp [dataOf, List.flatMap_cons]
+    simp only [liveEntries, List.mem_cons] at he
+    rcases he with rfl | he
+    · simp only [liveEntry, hlen]; omega
+    · have := ih (s + b.payload.length) e he
+      rw [hlen]; omega
+
 end Tdf
